@@ -25,7 +25,7 @@ def RULE(tier):
     return ("real tcp Server/ServerTls with a victim and a sibling connection (sibling does an echo exchange), and real "
             "Client/ClientTls against a scripted peer; every execution with <= %d faults, a fault being one of 9 connection-level "
             "errnos (+ TLS EOF, + handshake aborts) injected at one send/recv/handshake call of the victim, or the victim's peer "
-            "closing / resetting / half-closing at one step boundary. Oracle: service() never raises; victim ends cut off / aborted "
+            "closing / resetting / half-closing at one step boundary, or dying and reconnecting from the very same address before the server noticed. Oracle: service() never raises; victim ends cut off / aborted "
             "/ removed-and-closed; sibling echo completes. One case = one fault placement; key = (hio call site, error)." % BOUND(tier))
 
 
@@ -65,7 +65,8 @@ def server_side(tls, ch, wl=False):
         def peer_act(k):
             if died[0]:
                 return
-            a = PEER_ACTS[ch.choose(len(PEER_ACTS), "peer@%d" % k)]
+            acts = PEER_ACTS + ["rst+reconnect", "close+reconnect"]
+            a = acts[ch.choose(len(acts), "peer@%d" % k)]
             if a == "none":
                 return
             raw = getattr(victim.cs, "raw", victim.cs)
@@ -81,6 +82,16 @@ def server_side(tls, ch, wl=False):
                     raw.shutdown(fakenet._real.SHUT_WR)
                 except OSError:
                     pass
+            elif a in ("rst+reconnect", "close+reconnect"):
+                # the peer dies and a new connection comes from the very same address (ip, source port) before the server
+                # has noticed: the dead entry is still in the server's tables
+                name = raw.name
+                raw.abort() if a.startswith("rst") else raw.close()
+                died[0] = True
+                c2 = w.net.socket()
+                c2.owner = "raw"
+                c2.name = name
+                c2.connect_ex(("127.0.0.1", 6101))
 
         def echo():
             for ca, ix in list(w.server.ixes.items()):
